@@ -1123,6 +1123,15 @@ class Evaluation:
                         res = Opaque(site)
                 elif re.search(r"as (?:std::ops::)?Try>::branch$", func) and args:
                     res = Opaque(f"try({describe(args[0])})")
+                    # Continue (0) iff Ok / Some: link the ControlFlow discriminant to the operand's
+                    a0 = args[0]
+                    if isinstance(a0, Ref):
+                        a0, _ = self.read_place(ev.env, a0.place)
+                    da = self.discriminant(a0, "Option<()>") if isinstance(a0, (Opaque, Agg, Phi)) else None
+                    if da is not None and is_term(da):
+                        dr = z3.BitVec(f"disc({res.label})", 64)
+                        is_option = re.search(r"<(?:std::option::)?Option<", func) is not None
+                        self.domain[f"link({res.label})@{site}"] = (dr == z3.BitVecVal(1, 64) - da) if is_option else (dr == da)
                 elif INT_INTRINSIC.search(func) and len(args) in (1, 2) and self.int_intrinsic(func, args) is not None:
                     res = self.int_intrinsic(func, args)
                 elif TRY_FROM_INT.search(func) and len(args) == 1 and self.try_from_int(func, args[0], site) is not None:
@@ -1143,6 +1152,22 @@ class Evaluation:
                     res = Opaque(f"poll({base}#{n})" + (f"@L{layer}" if layer else ""))
                 else:
                     res = Opaque(site)
+                    # adaptors that keep or flip the success / failure of their argument: link the discriminants
+                    rel = None
+                    if args:
+                        if re.search(r"Result::<.*>::(map_err|map|inspect|inspect_err)(::<.*>)?$|Option::<.*>::(map|inspect)(::<.*>)?$", func):
+                            rel = "same"
+                        elif re.search(r"Option::<.*>::(ok_or_else|ok_or)(::<.*>)?$|Result::<.*>::(ok|err)$", func):
+                            rel = "flip" if not func.rstrip().endswith("::err") else "same"
+                    if rel is not None:
+                        a0 = args[0]
+                        if isinstance(a0, Ref):
+                            a0, _ = self.read_place(ev.env, a0.place)
+                        da = self.discriminant(a0, "Option<()>") if isinstance(a0, (Opaque, Agg, Phi)) else None
+                        if da is not None and is_term(da):
+                            dr = z3.BitVec(f"disc({site})", 64)
+                            one = z3.BitVecVal(1, 64)
+                            self.domain[f"link({site})"] = (dr == da) if rel == "same" else (dr == one - da)
                 self.write_place(env, t["dest"], res)
                 for g, rx in self.ghosts.items():
                     if rx(ev, self):
